@@ -51,7 +51,16 @@ static void logEv(int kind, int a, int b, int c)
   }
 }
 
-struct Em : public Callback::Emitter
+// A first base class in front of Callback::Emitter / Callback::Listener: the `Emitter*` / `Listener*` the library
+// stores (receiver, map keys) then differ from the address of the whole object, which `Slot::object` holds and
+// the slot is called on (connect: `X* x = src; Y* y = dest; connect(x, signal, y, y, slot)`).
+struct Pad
+{
+  long long pad[3];
+  Pad() { pad[0] = pad[1] = pad[2] = 0x5a5a5a5a5a5a5a5aLL; }
+};
+
+struct Em : public Pad, public Callback::Emitter
 {
   int id;
   Em(int id) : id(id) {}
@@ -94,7 +103,7 @@ static bool inOrder(int k, const int* a)
   return true;
 }
 
-struct Li : public Callback::Listener
+struct Li : public Pad, public Callback::Listener
 {
   int id;
   Li(int id) : id(id) {}
